@@ -1,9 +1,15 @@
 (* C10 — a retried POST (same client message id as the last message applied for the session)
-   is acknowledged but not applied again.  Stated PRECONDITION of the property: the retry
-   reaches a node that has already applied the first copy ([Inv sid c] holds of that node's
-   state; a retry overtaking the first copy on another node — D14 — is outside).
+   is acknowledged but not applied again.  Two layers:
+   (a) a handler that is caught up (answers from the state of the node that applies) proposes
+       nothing: C10_handler, C10_retry_noop, C10_retries;
+   (b) whatever the handler saw — lagging behind the log, freshly elected, arbitrary (D14) —
+       a second copy that reaches the log is skipped by every node that applies it
+       (statemachine.go, commit 92a4e2e): identity on the state, not processed, no output:
+       C10_second_copy_identity, C10_duplicates_invisible, C10_second_copy_in_log,
+       C10_processed_once.  No precondition on the handling node is left.
    Statements over Api/Post.v; which sessions die while an entry is processed is an arbitrary
-   oracle, so they hold for every IRC semantics. *)
+   oracle, so they hold for every IRC semantics.  Client message id 0 is "no id": two entries
+   with id 0 are two messages (the skip rule requires a non-zero id). *)
 From Coq Require Import List Bool NArith String.
 From RV Require Import Base.Text Api.Auth Api.Post Api.PostProofs.
 Import ListNotations.
@@ -58,7 +64,7 @@ Theorem C10_retries : forall json_decode restore,
 Proof. exact retries_add_nothing. Qed.
 Print Assumptions C10_retries.
 
-(* the precondition is established by the first copy, as a message ... *)
+(* the invariant [Inv sid c] is established by the first copy, as a message ... *)
 Theorem C10_first_copy : forall json_decode restore s t hdr b o sid d c,
   session_check (s_node s) hdr t = inl sid ->
   json_decode (stake body_limit b) = Some (d, c) ->
@@ -72,6 +78,55 @@ Theorem C10_message_of_death : forall json_decode restore s e o,
   e_type e = EMod -> Inv (e_session e) (e_cmid e) (s_node (step json_decode restore s (EvApply e o))).
 Proof. exact mod_copy_establishes. Qed.
 Print Assumptions C10_message_of_death.
+
+(* ---- (b): the second copy in the log ------------------------------------------------------- *)
+(* a copy of the session's last message is the identity on the state and is not processed *)
+Theorem C10_second_copy_identity : forall o st e sid c,
+  Inv sid c st -> c <> 0%N -> is_copy sid c e = true ->
+  apply o st e = st /\ processes st e = false.
+Proof. exact dup_apply_identity. Qed.
+Print Assumptions C10_second_copy_identity.
+
+(* a log with any number of extra copies = the log without them: same state, same processed
+   entries (same output), on every replica (a statement about replay alone) *)
+Theorem C10_duplicates_invisible : forall sid c, c <> 0%N -> forall l st,
+  Inv sid c st -> Forall (tail_ok sid c) l ->
+  replay l st = replay (drop_copies sid c l) st /\
+  replay_proc l st = replay_proc (drop_copies sid c l) st.
+Proof. exact duplicates_invisible. Qed.
+Print Assumptions C10_duplicates_invisible.
+
+(* closed form: ANY log  l1 ++ first copy ++ (entries that keep it the session's last message)
+   ++ second copy, from ANY initial state *)
+Theorem C10_second_copy_in_log : forall st0 l1 e1 o1 l2 e2 o2,
+  is_client_msg e1 = true -> e_cmid e1 <> 0%N ->
+  Forall (tail_ok (e_session e1) (e_cmid e1)) l2 ->
+  is_copy (e_session e1) (e_cmid e1) e2 = true ->
+  replay (l1 ++ (e1, o1) :: l2 ++ [(e2, o2)]) st0 = replay (l1 ++ (e1, o1) :: l2) st0 /\
+  replay_proc (l1 ++ (e1, o1) :: l2 ++ [(e2, o2)]) st0 = replay_proc (l1 ++ (e1, o1) :: l2) st0.
+Proof. exact second_copy_in_log. Qed.
+Print Assumptions C10_second_copy_in_log.
+
+(* one repeat answered from ANY state [view]: state and processed entries of the applying node
+   are unchanged *)
+Theorem C10_stale_handler : forall json_decode view s t hdr b o sid c d,
+  Inv sid c (s_node s) -> c <> 0%N -> parse_uint0 t = Some sid ->
+  json_decode (stake body_limit b) = Some (d, c) ->
+  s_node (post_from json_decode view s t hdr b o) = s_node s /\
+  s_proc (post_from json_decode view s t hdr b o) = s_proc s.
+Proof. exact stale_retry_is_invisible. Qed.
+Print Assumptions C10_stale_handler.
+
+(* histories with handlers in arbitrary states and copies committed by any means: no client
+   message of the session is processed again — the message is processed at most once *)
+Theorem C10_processed_once : forall json_decode restore,
+  (forall st id, is_live (restore st) id = is_live st id /\ last_post (restore st) id = last_post st id) ->
+  forall sid c evs, c <> 0%N -> forall s,
+  Inv sid c (s_node s) -> Forall (allowed_any json_decode sid c) evs ->
+  Inv sid c (s_node (run json_decode restore evs s)) /\
+  filter (own_e sid) (s_proc (run json_decode restore evs s)) = filter (own_e sid) (s_proc s).
+Proof. exact retries_processed_once. Qed.
+Print Assumptions C10_processed_once.
 
 (* any replica of the same log has the same sessions and markers (leadership is node-local) *)
 Theorem C10_replicas : forall l st1 st2 id,
